@@ -6,7 +6,7 @@ D="$(cd "$1" && pwd)"; SECS="${2:-15}"
 wt=/tmp/wt-benign-$$; rm -rf $wt; git -C /repo worktree prune
 git -C /repo worktree add -q --detach $wt HEAD || exit 2
 if ! git -C $wt apply "$D/patch.diff"; then echo "PATCH DOES NOT APPLY"; git -C /repo worktree remove --force $wt; exit 2; fi
-/tmp/seedkit/build_and_test.sh $wt > $wt/_bt.log 2>&1; tail -1 $wt/_bt.log
+/verif/tools/build_and_test.sh $wt > $wt/_bt.log 2>&1; tail -1 $wt/_bt.log
 bad=0
 for id in C02 C04 C05 C06 C07 C08 C09 C10 C13 C14 C16 C17 C18; do
   out=$(VERIF_REPO=$wt /verif/check $id quick --seconds $SECS --no-evidence 2>&1); rc=$?
